@@ -509,6 +509,7 @@ def predsJS (E : Env) (j : JS) : Res Preds :=
 inductive CallThis
   | self
   | val (j : JS)
+  | fresh                                  -- [[Construct]]: a newly created object
 deriving DecidableEq, Inhabited
 
 /-- how the call is made through the Go API.  `member` = the callee is written `obj.probe` (else `probe`). -/
@@ -517,6 +518,7 @@ inductive Path
   | objectCall                             -- obj.Call("probe", args…)
   | ottoCallNil (member : Bool)            -- vm.Call(src, nil, args…)
   | ottoCallThis (member : Bool) (this : GoVal)   -- vm.Call(src, this, args…), this ≠ nil
+  | ottoCallNew (this : Option GoVal)             -- vm.Call("new " + src, this, args…): "the this argument has no effect"
 deriving DecidableEq, Inhabited
 
 /-- the thisValue each path passes to function.call -/
@@ -527,17 +529,21 @@ def apiThis : Path → Res CallThis
   | .ottoCallNil member => .ok (if member then .self else .val jsUndef)
       -- otto.go:551: `source()` is compiled and evaluated as a call expression, so `this` is the reference base
   | .ottoCallThis _ g => (toValue g).map .val                   -- otto.go:569 `o.ToValue(this)`, then fn.Call(val, …)
+  | .ottoCallNew none => .ok .fresh                             -- fn.constructSafe: `this` is not used
+  | .ottoCallNew (some g) => (toValue g).map fun _ => .fresh    -- ToValue(this) must still succeed
 
 /-- what a function body observes as `this` -/
 inductive ThisObs
   | global
   | self
   | boxed (v : View)       -- a wrapper object whose [[PrimitiveValue]] is v
+  | instance               -- the object created by `new`
 deriving DecidableEq, Repr, Inhabited
 
 /-- enterFunctionScope (runtime.go:93): undefined/null -> the global object, else toObject(this) -/
 def enterThis (E : Env) : CallThis → Res ThisObs
   | .self => .ok .self
+  | .fresh => .ok .instance
   | .val (.prim .undef) => .ok .global
   | .val (.prim .null) => .ok .global
   | .val (.prim v) => (viewJS E (.prim v)).map .boxed
@@ -550,5 +556,48 @@ def argViews (E : Env) : List GoVal → Res (List View)
 /-- observation of an API call: (this, arguments) as the callee sees them -/
 def apiCall (E : Env) (p : Path) (args : List GoVal) : Res (ThisObs × List View) :=
   ((apiThis p).bind (enterThis E)).bind fun t => (argViews E args).map fun vs => (t, vs)
+
+/-! #### callees with side effects that return or throw
+
+  The probe function logs its `this`, bumps a counter and then leaves by one of four exits.  What the
+  API paths contribute is HOW OFTEN and WITH WHAT the callee is invoked, and which outcome reaches the
+  caller: every path invokes the callee exactly once – catchPanic turns an exception into the returned
+  error, nothing is retried (otto.go:556-561 returns the error of the special `this == nil` path). -/
+
+inductive Exit
+  | ret              -- return a description of (this, arguments)
+  | throwTypeError   -- throw new TypeError("t:" + this + ":" + count)
+  | throwOnce        -- throw new Error(…) on the first invocation only, return afterwards
+  | throwValue       -- throw the primitive string "s:" + this
+deriving DecidableEq, Repr, Inhabited
+
+inductive Outcome
+  | ret (this : ThisObs) (args : List View)
+  | retObject                                        -- `new`: the constructed object
+  | throwErr (cls : String) (this : ThisObs) (n : Nat)
+  | throwValue (this : ThisObs)
+deriving DecidableEq, Repr, Inhabited
+
+def isNewPath : Path → Bool
+  | .ottoCallNew _ => true
+  | _ => false
+
+/-- the probe's n-th invocation (n counted from 1) -/
+def exitOf (b : Exit) (isNew : Bool) (n : Nat) (t : ThisObs) (vs : List View) : Outcome :=
+  match b with
+  | .ret => if isNew then .retObject else .ret t vs
+  | .throwTypeError => .throwErr "TypeError" t n
+  | .throwOnce => if n = 1 then .throwErr "Error" t n else (if isNew then .retObject else .ret t vs)
+  | .throwValue => .throwValue t
+
+/-- a run: the invocations the callee saw, in order, and the outcome handed to the caller -/
+structure Run where
+  invocations : List ThisObs
+  outcome : Outcome
+deriving DecidableEq, Repr, Inhabited
+
+/-- one [[Call]]/[[Construct]]; its completion (normal or abrupt) is the result of the API call -/
+def apiRun (E : Env) (p : Path) (b : Exit) (args : List GoVal) : Res Run :=
+  (apiCall E p args).map fun (t, vs) => ⟨[t], exitOf b (isNewPath p) 1 t vs⟩
 
 end OttoVerif.C15
